@@ -20,6 +20,9 @@ EXPLANATION = (
     "or punch arithmetic, nor inline-data lengths.")
 
 FIO = "lib/ext2fs/fileio.c"
+# the inline-data variants do not use the block buffer (they go through ext2fs_inline_data_get/set):
+# they are functions of their own for these rules, not parts of ext2fs_file_read/write
+SEPARATE_PATHS = ("ext2fs_file_read_inline_data", "ext2fs_file_write_inline_data")
 DATA_PATH_FILES = ("lib/ext2fs/fileio.c", "lib/ext2fs/bmap.c", "lib/ext2fs/punch.c", "lib/ext2fs/fallocate.c",
                    "lib/ext2fs/extent.c", "lib/ext2fs/inline_data.c", "lib/ext2fs/alloc.c", "lib/ext2fs/alloc_stats.c",
                    "lib/ext2fs/ind_block.c", "lib/ext2fs/i_block.c", "lib/ext2fs/mkjournal.c", "lib/ext2fs/unix_io.c",
